@@ -151,6 +151,25 @@ def build_app(ending, nchild, when, log, ctl, flaky=0):
 
         async def start(self):
             await self.managed(f"child{self.idx}.managed")
+            if ending <= 10 or ending in (19, 20):
+                # (endings whose teardown is not cancelled) a service task with a slow start-up, stopped through a callable OBJECT; siblings register
+                # their callbacks while it is starting - its place in the reverse order is where start_service_task() RETURNED
+                label = f"child{self.idx}.service"
+                stop = anyio.Event()
+
+                async def service(*, task_status, label=label, stop=stop):
+                    await anyio.sleep(0)
+                    await anyio.sleep(0)
+                    task_status.started()
+                    await stop.wait()
+                    log.append(("td", label))
+
+                class StopRequest:
+                    def __call__(self, stop=stop):
+                        stop.set()
+
+                await start_service_task(service, label, teardown_action=StopRequest())
+                log.append(("registered", label))
             await atd(f"child{self.idx}.start1")
             td_res(f"child{self.idx}.resource")
             await anyio.sleep(0)
